@@ -97,7 +97,7 @@ func runC18(c *Ctx, r *Report, tier string) {
 			if u, ok := e.(*ssa.UnOp); ok {
 				if al, ok := u.X.(*ssa.Alloc); ok {
 					for _, ref := range *al.Referrers() {
-						if fa, ok := ref.(*ssa.FieldAddr); ok && fieldObj(fa.X.Type(), fa.Field).Name() == "Item" {
+						if fa, ok := ref.(*ssa.FieldAddr); ok && fieldVarName(fieldObj(fa.X.Type(), fa.Field)) == "Item" {
 							for _, r2 := range *fa.Referrers() {
 								if st, ok := r2.(*ssa.Store); ok {
 									item = c.term(st.Val)
@@ -137,7 +137,7 @@ func runC18(c *Ctx, r *Report, tier string) {
 			if u, ok := e.(*ssa.UnOp); ok {
 				if al, ok := u.X.(*ssa.Alloc); ok {
 					for _, ref := range *al.Referrers() {
-						if fa, ok := ref.(*ssa.FieldAddr); ok && fieldObj(fa.X.Type(), fa.Field).Name() == "Item" {
+						if fa, ok := ref.(*ssa.FieldAddr); ok && fieldVarName(fieldObj(fa.X.Type(), fa.Field)) == "Item" {
 							for _, r2 := range *fa.Referrers() {
 								if st, ok := r2.(*ssa.Store); ok && c.term(st.Val) == "Command.Name("+cmd+")" {
 									okI = true
@@ -268,7 +268,7 @@ func runC18(c *Ctx, r *Report, tier string) {
 	okPre := false
 	for _, s := range c.instrs(cv, func(in ssa.Instruction) bool { _, ok := in.(*ssa.Store); return ok }) {
 		st := s.(*ssa.Store)
-		if fa, ok := st.Addr.(*ssa.FieldAddr); ok && fieldObj(fa.X.Type(), fa.Field).Name() == "Item" {
+		if fa, ok := st.Addr.(*ssa.FieldAddr); ok && fieldVarName(fieldObj(fa.X.Type(), fa.Field)) == "Item" {
 			t := c.term(st.Val)
 			if strings.HasPrefix(t, "(P2 + Completion.Item(") {
 				okPre = true
